@@ -131,11 +131,12 @@ static void big_case(uint64_t idx)
     if (c->id == CIPH_S128) { skinny128_set_key(&k128, key, klen); for (b = 0; b < nb; ++b) (dec ? skinny128_ecb_decrypt : skinny128_ecb_encrypt)(exp_ + 16 * (size_t)b, in + 16 * (size_t)b, &k128); }
     else if (c->id == CIPH_S64) { skinny64_set_key(&k64, key, klen); for (b = 0; b < nb; ++b) (dec ? skinny64_ecb_decrypt : skinny64_ecb_encrypt)(exp_ + 8 * (size_t)b, in + 8 * (size_t)b, &k64); }
     else { mantis_set_key(&km, key, 16, rounds, dec ? MANTIS_DECRYPT : MANTIS_ENCRYPT); for (b = 0; b < nb; ++b) mantis_ecb_crypt_tweaked(exp_ + 8 * (size_t)b, in + 8 * (size_t)b, tw + 8 * (size_t)b, &km); }
-    if (inplace) memcpy(out, in, len);
+    if (inplace) memcpy(out, in, len); else vh_make_undef(out, len);
     vh_call_begin("parallel large call");
     ret = ((dec && c->par_decrypt) ? c->par_decrypt : c->par_encrypt)(out, inplace ? out : in, tw, len, &h);
     vh_call_end();
     VH_COUNT("large_calls", 1); VH_COUNT("judged_blocks", nb); VH_MAXC("max_blocks_in_one_call", nb);
+    if (vh_def_available()) { vh_check_defined("return-value", &ret, sizeof(ret)); vh_check_defined("output", out, len); }
     if (ret != 1 || memcmp(out, exp_, len)) {
         size_t q = 0; char key_[200], dd[300]; while (q < len && out[q] == exp_[q]) ++q;
         snprintf(dd, sizeof(dd), "{\"cipher\":\"%s\",\"backend\":\"%s\",\"blocks\":%u,\"decrypt\":%d,\"in_place\":%d,\"first_diff_block\":%lu,\"ret\":%d}", c->name, vh_backend_names[be], nb, dec, inplace, (unsigned long)(q / c->bb), ret);
